@@ -37,6 +37,26 @@ class Graph:
     def tour(self, max_paths=None):
         return tlc.tour(self.nodes, self.edges, self.inits, max_paths)
 
+    def random_walks(self, rng, n, depth):
+        """seeded behaviours of the explored graph: an edge tour reaches every transition by SOME history, random walks add
+        long histories (implementation state the abstract state does not distinguish is exercised through them)"""
+        if not hasattr(self, "_out"):
+            self._out = {}
+            for (a, l, b) in self.edges:
+                self._out.setdefault(a, []).append((a, l, b))
+        walks = []
+        for _ in range(n):
+            cur, w = self.inits[0], []
+            for _k in range(depth):
+                outs = self._out.get(cur)
+                if not outs:
+                    break
+                e = outs[rng.randrange(len(outs))]
+                w.append(e)
+                cur = e[2]
+            walks.append(w)
+        return walks
+
 
 def minimize(labels, fails):
     """greedy one-step-deletion minimisation. `fails(labels)` returns the failing clause (truthy) or None;
